@@ -39,7 +39,7 @@ def header_ref(v, seq, cid):
 
 class Check(PropertyCheck):
     pid = "C07"
-    gen_files = ["GenCmd"]
+    gen_files = ["GenCmd", "GenEzspFn"]
     model_imports = ["lib.EzspTypes", "gen.GenCmd", "model.EzspCodec", "model.EzspCases"]
     run_expr = "run_c07_case"
     case_type = "(N * string * N * list ival * list ival)"
